@@ -476,10 +476,13 @@ let mon_c10 (r : runres) =
               let new_parent = List.filter (fun (k, d) -> not (List.mem (k, d) pfds)) (fds_of st.s_after main) in
               let expected_parent_ends = ref 0 in
               let std_closed = List.exists (fun fd -> not (List.mem_assoc fd pfds)) [ 0; 1; 2 ] in
-              let target_fd s (rd : redirect) = match i rd.rd_type with
+              (* the child-side end each stream gets in the parent, when it is a caller/std descriptor *)
+              let rec target_fd s (rd : redirect) = match i rd.rd_type with
+                | 2 -> (match List.assoc_opt (s + 1) files with Some (Some fd) -> Some fd | _ -> None)
+                | 4 -> target_fd 1 eff.o_out
                 | 5 -> Some (i rd.rd_handle)
                 | 6 -> (match List.assoc_opt (i rd.rd_file) files with Some (Some fd) -> Some fd | _ -> None)
-                | _ -> ignore s; None in
+                | _ -> None in
               let std_alias = List.exists (fun (s, rd) -> match target_fd s rd with Some fd -> fd >= 0 && fd <= 2 && fd <> s | None -> false)
                   [ (0, eff.o_in); (1, eff.o_out); (2, eff.o_err) ] in
               let cause = if std_closed then "parent-std-closed" else if std_alias then "std-handle-alias" else "" in
